@@ -867,6 +867,14 @@ class Engine:
               if isinstance(e, ast.Starred)]
       if v.elts is not None and len(v.elts) == n and not star:
         parts = list(v.elts)
+      elif star and v.elts is not None and len(v.elts) >= n - 1:
+        i = star[0]
+        after = n - 1 - i
+        mid = v.elts[i:len(v.elts) - after]
+        sv = V(None, elts=tuple(mid))
+        sv.d = self.dom.tuple(list(mid), stmt, st)
+        parts = list(v.elts[:i]) + [sv] + \
+            (list(v.elts[len(v.elts) - after:]) if after else [])
       elif star:
         base = self.dom.unpack(v, n, stmt, st)
         parts = base
